@@ -544,3 +544,30 @@ Proof.
   intros L Hf s x. apply (f_mul_scalar_value S L).
   intro Hl. exact (is_linear_homogeneous S e L Hf Hl).
 Qed.
+
+(* QuadraticForm with the operators the harness uses: premises of leaf_quad_sound hold *)
+Section QuadInstances.
+Variable S : RSpace.
+Hypothesis L : SpaceLaws S.
+
+Lemma leaf_quad_scal_sound (s : R) (b : option (car S)) (c : R) x :
+  leaf_sound (leaf_quad S (sscal S s) (sscal S s) true b c) x.
+Proof.
+  apply (leaf_quad_sound S L).
+  - intros u v. apply (scal_add_r S L).
+  - exists (Rabs s). split; [apply Rabs_pos|]. intro h. rewrite (norm_scal S L). lra.
+  - intros u v. rewrite (inner_scal_l S L), (inner_scal_r S L). reflexivity.
+  - intros _ u. reflexivity.
+Qed.
+Lemma leaf_quad_mult_sound (v : car S) (b : option (car S)) (c : R) x :
+  leaf_sound (leaf_quad S (smul S v) (smul S v) false b c) x.
+Proof.
+  apply (leaf_quad_sound S L).
+  - intros u u'. apply (mul_add_r S L).
+  - destruct (norm_mul S L v v) as [C [HC Hb]]. exists (C * norm S v). split.
+    { apply Rmult_le_pos; [assumption|apply norm_nonneg]. }
+    intro h. apply Hb.
+  - intros u u'. apply (mul_adj S L).
+  - discriminate.
+Qed.
+End QuadInstances.
